@@ -77,22 +77,6 @@ def orders_of(names, rng, limit):
     return [allo[0]] + rng.sample(allo[1:], limit - 1)
 
 
-def pretagged(lines, rng, mode):
-    """S lines with BO/NO already present"""
-    out = []
-    for l in lines:
-        if l.startswith("S\t") and (mode == "all" or rng.random() < 0.5):
-            p = l.split("\t")
-            extra = ["BO:i:%d" % rng.randint(0, 40), "NO:i:%d" % rng.randint(0, 5)]
-            if mode == "some":
-                extra = extra[:rng.randint(1, 2)]
-            for t in extra:
-                p.insert(rng.randint(3, len(p)), t)
-            l = "\t".join(p)
-        out.append(l)
-    return out
-
-
 def one_graph(ctx, d, lines, names, n_orders, n_shuffles, tag):
     """all checks on one generated graph; names = requested (in-domain) chromosomes"""
     rng = ctx.rng
@@ -117,7 +101,7 @@ def one_graph(ctx, d, lines, names, n_orders, n_shuffles, tag):
         ctx.case("line-order", ol.digest(pl, order))
         _report(ctx, "line-order", problems, case, "%s with permuted S/L lines" % tag)
     # BO/NO tags left by an earlier run: garbage values, partial tags, and the real output of a run in another chromosome order
-    variants = [("all", pretagged(lines, rng, "all")), ("some", pretagged(lines, rng, "some"))]
+    variants = [("all", ol.pretagged(lines, rng, "all")), ("some", ol.pretagged(lines, rng, "some"))]
     other = list(reversed(order))
     r = ol.run_inproc(d, lines, other, by_chrom=False)
     if r.ok() and "g-complete.gfa" in r.files:
